@@ -149,7 +149,8 @@ impl SyncReadBuf {
                 }
 
                 let len = inner.buf_len();
-                let read_slice = inner.slice(len..);
+                // never read more than the limit leaves room for
+                let read_slice = inner.slice(len..self.max_buffer_size.max(len));
                 stream.read(read_slice).await.into_inner()
             })
             .await?;
